@@ -46,8 +46,10 @@ MODELLED = {
     "num": (["1", "+1", "-1", "0", "007", "18446744073709551615"], ["x", "+", "1k", "", "1 ", "18446744073709551616", "٣"]),
     "-size": (["1k", "+2M", "-3", "0c", "5w", "1G", "7b"], ["10x", "k", "", "1kk", "abc10k", "1K"]),
     "-type": (["f", "d", "l", "p", "s", "b", "c"], ["x", "fd", "", "D", "F"]),
-    "-printf": (["%p\\n", "%5d|%-3f", "abc", "%%", "\\101", "é%p", "%H/%P", "\\c", "%AH", "%T@", "\\101é", "\\1é"],
-                ["\\q", "%", "abc\\", "\\é", "%é", "%99999999999999999999p", "%A", "%5", "\\12é", "\\1€", "%Aé", "\\0😀", "%{", "a%[b", "%5(x)"]),
+    "-printf": (["%p\\n", "%5d|%-3f", "abc", "%%", "\\101", "é%p", "%H/%P", "\\c", "%AH", "%T@", "\\101é", "\\1é", "%.3p", "%10.5d|%-4.f", "%.0m"],
+                ["\\q", "%", "abc\\", "\\é", "%é", "%99999999999999999999p", "%A", "%5", "\\12é", "\\1€", "%Aé", "\\0😀", "%{", "a%[b", "%5(x)",
+                 # a format that ends inside a directive behind the "." of a precision
+                 "%5.", "%.", "%.5", "%-.5", "x%5.3", "%.99999999999p", "%.3A"]),
     "depth": (["0", "3", "2", "10"], ["-1", "x", "", "1.5", "+2", "+0"]),
     "-regextype": (["emacs", "posix-extended", "grep", "sed", "ed", "posix-basic"], ["bogus", "", "EMACS"]),
 }
@@ -492,6 +494,7 @@ REGEX_OPERANDS = [("posix-extended", "a{2,1}", False), ("posix-basic", "a\\{2,1\
                   ("posix-extended", "[[:alpha:][.-.]\\+", False), ("posix-extended", "[[.-.]]", True), ("emacs", "[[=]=]]", True),
                   ("posix-extended", "[[=a=]-c]", False), ("emacs", "[[=a=]-[=c=]]", False), ("grep", "[a-[=z=]]", False), ("posix-extended", "[--[=b=]]", False),
                   ("posix-basic", "[]-[=b=]]", False), ("posix-extended", "[[.a.]-[=b=]]", False), ("posix-extended", "[[=b=]-]", True), ("posix-extended", "[-[=b=]]", True),
+                  ("grep", "^^\\{", False), ("grep", "a\\|^^\\{", False), ("posix-basic", "^^\\+*", False), ("sed", "^^\\?\\{1\\}", False), ("grep", "^\\{1\\}", True), ("posix-basic", "^^a", True),
                   ("posix-extended", "[[.a.]-z]", True), ("posix-extended", "[a-[.c.]]", True), ("posix-basic", "[[.a.]-[.z.]]", True), ("posix-extended", "[[.a.]\\(]", True)]
 
 
